@@ -525,7 +525,7 @@ func genScript(t *rapid.T) Script {
 	}
 	bodyKind := rapid.SampledFrom([]string{"", "", "x", "hello", "@blob", "@manifest", "@index", "{\"schemaVersion\":2,", "not json"}).Draw(t, "body")
 	s.Body = bodyKind
-	opt("n", []string{"", "0", "1", "2", "3", "-1", "abc", "99999999999999999999", "1000", "1001"})
+	opt("n", []string{"", "0", "1", "2", "3", "-1", "abc", "99999999999999999999", "1000", "1001", "4611686018427387904", "9223372036854775807", "2147483648", "-9223372036854775808", "+5", "1e3", " 2"})
 	opt("last", []string{"", "a", "latest", "v1", "zzz", "foo", "a&b"})
 	opt("digest", []string{string(digest.FromBytes(s.body())), string(blobDg), string(digest.FromBytes([]byte("hello"))), "sha256:zz", "", gen.HostileDigest().Draw(t, "qdigest")})
 	opt("mount", []string{string(blobDg), gen.ValidDigest().Draw(t, "qmount"), "sha256:zz", ""})
